@@ -115,7 +115,13 @@ def scenario_for(v, sid, svc, meth):
             result["r%d" % (j + 1)] = c
     if is_whole(ra):
         result = hg.concrete(ra[0], v["rv"][0])
-    return {"id": sid, "service": svc, "method": meth, "payload": payload, "outcome": {"kind": "result", "value": result}}
+    scn = {"id": sid, "service": svc, "method": meth, "payload": payload, "outcome": {"kind": "result", "value": result}}
+    # value shape "nofield": the generated encoder writes a complete object, the member is removed on the wire
+    treq = [p for i, a in enumerate(pa) for p in hg.tamper_paths(a, v["pv"][i], "a%d" % (i + 1))]
+    tresp = [p for j, a in enumerate(ra) for p in hg.tamper_paths(a, v["rv"][j], "r%d" % (j + 1))]
+    if treq or tresp:
+        scn["tamper"] = {"req": treq, "resp": tresp}
+    return scn
 
 
 def whole_where(a, wire, name):
@@ -124,6 +130,8 @@ def whole_where(a, wire, name):
     q = wire.get("query") or {}
     h = {k.lower(): x for k, x in (wire.get("headers") or {}).items()}
     if hg.ELEM["query"](name) in q:
+        s.add("query")
+    if a["nest"] == "whole_mapval" and a["loc"] == "query" and q:       # MapParams(): every key of the query string is an entry
         s.add("query")
     if hg.ELEM["header"](name).lower() in h:
         s.add("header")
@@ -159,7 +167,7 @@ def project(v, events):
             dp = {}
         cls = []
         for i, a in enumerate(pa):
-            sent = hg.concrete(a, v["pv"][i])
+            sent = hg.sent_datum(a, v["pv"][i])
             dflt = hg.concrete(a, hg.default_of(a)) if a["mode"] == "default" else None
             cls.append(hg.classify(dp if is_whole(pa) else dp.get("a%d" % (i + 1)), sent, dflt))
         o["delivered"] = cls
@@ -188,7 +196,7 @@ def project(v, events):
                 res = {}
             cls = []
             for j, a in enumerate(ra):
-                sent = hg.concrete(a, v["rv"][j])
+                sent = hg.sent_datum(a, v["rv"][j])
                 dflt = hg.concrete(a, hg.default_of(a)) if a["mode"] == "default" else None
                 got = res if is_whole(ra) else (res.get("r%d" % (j + 1)) if isinstance(res, dict) else None)
                 cls.append(hg.classify(got, sent, dflt))
@@ -261,14 +269,14 @@ def short_case(c):
 # ------------------------------------------------------------------ explaining mismatches by named deviations
 DEVIATIONS = ["param.empty_string_is_absent", "cookie.value_sanitized", "client.path_not_escaped", "mux.double_unescape",
               "validate.absent_collection_length", "response.header_array_joined", "validate.exclusive_max_unchecked",
-              "decode.required_cookie_drops_param_errors"]
+              "decode.required_cookie_drops_param_errors", "decode.mapparams_prefix_expected", "validate.map_value_required_unchecked"]
 
 
 def case_key(v):
     return core.canon([v["pa"], v["ra"], v.get("tagged", False), v["pv"], v["rv"]])
 
 
-CONTAINER_NESTS = ("elem", "mapkey", "mapval", "elem_nested", "mapval_nested", "mapkey_alias", "whole_elem", "whole_mapval")
+CONTAINER_NESTS = ("elem", "mapkey", "mapval", "mapval_elem", "elem_nested", "mapval_nested", "mapkey_alias", "whole_elem", "whole_mapval")
 
 
 def emptyish(a, x):
@@ -280,7 +288,7 @@ def abstract_class(a, sent, x):
     """the class hg.classify gives a concrete value, computed on the abstract one"""
     if (hg.is_absent(x) or emptyish(a, x)) and (hg.is_absent(sent) or emptyish(a, sent)):
         return "absent" if hg.is_absent(sent) else "sent"
-    if hg.is_absent(x):
+    if hg.is_absent(x) or (a["nest"] in CONTAINER_NESTS and x["cn"] == 0):       # (hg.classify: an empty container is "nothing there")
         return "absent"
     if x == sent:
         return "sent"
